@@ -1193,7 +1193,51 @@ fn gen_c07(ctx: &mut Ctx) {
 }
 
 /// Dimensions at the far end of u32 whose pages are tiny (width 0) or whose padded size is beyond any buffer.
+/// One pixel on pages too large to print (PXI): the documented byte and bit, nothing else, neighbours untouched.
+fn pxi_cases(ctx: &mut Ctx, monitor: &str) {
+    let big = 16_777_216u32; // 2^24: where a 32-bit float stops being exact
+    let mut v = vec![(2u32, big + 1, 0u32, big), (2, big + 1, 1, 0), (2, big + 1, 1, big), (3, big + 9, 1, big + 8), (2, 2 * big + 1, 1, 2 * big), (2, big, 1, big - 1), (2, big + 1, 0, big + 1), (2, big + 1, 2, 0)];
+    if ctx.tier_thorough {
+        v.extend_from_slice(&[(2, big + 17, 1, 5), (2, 4 * big + 1, 1, 4 * big), (5, big + 1, 4, big), (2, big + 7, 0, big + 6), (70000, 9, 69999, 8), (65537, 17, 65536, 16)]);
+    }
+    for (w, h, x, y) in v {
+        let line = format!("PXI {} {} {} {}", w, h, x, y);
+        let res = ctx.case(line.clone(), true, "one-pixel-on-a-huge-page");
+        let want = if x < w && y < h {
+            let (w64, h64, x64, y64) = (w as u64, h as u64, x as u64, y as u64);
+            format!(
+                "len={} set=[{}:{}] get=1 nbr={}/{}",
+                total_bytes(w64, h64),
+                4 + x64 * bpc(h64) + y64 / 8,
+                1u32 << (y64 % 8),
+                if x + 1 < w { "0" } else { "-" },
+                if y > 0 { "0" } else { "-" }
+            )
+        } else {
+            "PANIC".to_string()
+        };
+        ctx.monitor(res == want, monitor, &line, &format!("got [{}] want [{}]", res, want));
+    }
+}
+
 fn gen_c07_extreme(ctx: &mut Ctx) {
+    pxi_cases(ctx, "C07-pixel-location");
+    // one surplus chunk after a page whose pixels end exactly at a chunk boundary (so the page itself has no padding), and
+    // other wrong lengths, with every byte after the header the same value (0xFF = what padding looks like)
+    for (w, h) in [(12u32, 8u32), (28, 7), (6, 16), (60, 8), (1, 96), (90, 7), (13, 8)] {
+        let total = total_bytes(w as u64, h as u64) as i64;
+        for len in [total, total + 16, total + 32, total - 16, total + 1] {
+            for fill in [0xFFu8, 0x00, 0x10] {
+                if len < 4 {
+                    continue;
+                }
+                let line = format!("PBX {} {} {} {}", w, h, len, fill);
+                let res = ctx.case(line.clone(), true, "from_bytes-uniform-content");
+                let ok = if len == total { res.starts_with("OK ") && res.len() == 3 + 2 * len as usize } else { res == "ER LEN" };
+                ctx.monitor(ok, "C07-from-bytes-iff-length", &line, &res[..res.len().min(80)]);
+            }
+        }
+    }
     let m = u32::MAX;
     for (w, h) in [(0u32, m), (0, m - 1), (0, m - 6), (0, m - 7), (0, m - 8), (m, 0), (0, 1 << 31), (0, 70000), (1, 256), (1, 257), (3, 1000)] {
         let (w64, h64) = (w as u64, h as u64);
@@ -1230,6 +1274,17 @@ fn gen_c07_extreme(ctx: &mut Ctx) {
 // ---------------------------------------------------------------------------------------------
 
 fn gen_c06(ctx: &mut Ctx) {
+    pxi_cases(ctx, "C06-bitmap");
+    // the bounds check also holds in a destructor that runs while the thread is unwinding (child process: the second panic
+    // aborts it)
+    for (w, h, x, y) in [(8u32, 8u32, 8u32, 0u32), (8, 8, 0, 8), (8, 8, 7, 7), (2, 16, 0, 16), (2, 12, 0, 12), (2, 12, 1, 11), (3, 7, 3, 0), (3, 7, 0, 0)] {
+        for op in ["S", "G"] {
+            let line = format!("UNW {} {} {} {} {}", w, h, x, y, op);
+            let res = ctx.case(line.clone(), true, "while-unwinding");
+            let ok = if x < w && y < h { res.starts_with("OK ") } else { res == "ABORT" || res == "UNAVAILABLE" };
+            ctx.monitor(ok, "C06-bitmap", &line, &res);
+        }
+    }
     let mut rng = Rng::new(ctx.seed, 6);
     let mut szs = sizes(ctx, &mut rng, 40);
     // tall and wide pages: rows and columns beyond 255 / 256 / 65535 must not alias onto lower ones
